@@ -17,6 +17,7 @@ type C06Op struct {
 	Keys   []string `json:"keys,omitempty"`
 	Method int      `json:"method,omitempty"`
 	K      int      `json:"k,omitempty"`
+	Silent bool     `json:"silent,omitempty"` // the request's rules return nothing (empty result map)
 }
 
 type C06Case struct {
@@ -29,9 +30,9 @@ type C06Case struct {
 var c06Keys = []string{"ka", "kb", "kc"}
 
 func c06Rules() string {
-	s := "rule \"r_who\" \"d\" salience 10\nbegin\n  S(@name)\n  return who.Id\nend\n"
+	s := "rule \"r_who\" \"d\" salience 10\nbegin\n  S(@name)\n  if who.Kind == 0 {\n    return who.Id\n  }\nend\n"
 	for i, k := range c06Keys {
-		s += fmt.Sprintf("rule \"r_%s\" \"d\" salience %d\nbegin\n  same(%s.Id, who.Id)\n  gatei(who.Id)\n  same(%s.Id, who.Id)\n  %s.Out = who.Id\n  return %s.Id\nend\n", k, 5-i, k, k, k, k)
+		s += fmt.Sprintf("rule \"r_%s\" \"d\" salience %d\nbegin\n  same(%s.Id, who.Id)\n  gatei(who.Id)\n  same(%s.Id, who.Id)\n  %s.Out = who.Id\n  if who.Kind == 0 {\n    return %s.Id\n  }\nend\n", k, 5-i, k, k, k, k)
 	}
 	return s
 }
@@ -69,7 +70,7 @@ func init() {
 				if len(keys) == 0 {
 					keys = []string{c06Keys[uni(t, fmt.Sprintf("onekey%d", i), 0, 2)]}
 				}
-				c.Ops = append(c.Ops, C06Op{Kind: "start", Keys: keys, Method: uni(t, fmt.Sprintf("m%d", i), 0, len(c06Methods)-1)})
+				c.Ops = append(c.Ops, C06Op{Kind: "start", Keys: keys, Method: uni(t, fmt.Sprintf("m%d", i), 0, len(c06Methods)-1), Silent: pct(t, fmt.Sprintf("silent%d", i), 25)})
 				out++
 			}
 			return c
@@ -90,6 +91,10 @@ func init() {
 			maxParked := 0
 			keySets := map[string]bool{}
 			checkReq := func(r *poolReq, step int) bool {
+				if r.kind == 1 && len(r.res.Map) > 0 {
+					x.Violation("foreign-result:silent", "step %d: request %d (%s) returns nothing from any rule, but its result map is %v", step, r.id, r.call.Method, sortedMap(r.res.Map))
+					return false
+				}
 				if r.res.Panic != "" {
 					x.Violation("request-panic", "step %d: request %d (%s) panicked: %s", step, r.id, r.call.Method, truncate(r.res.Panic, 200))
 					return false
@@ -135,7 +140,12 @@ func init() {
 					nextID++
 					call := fullCall(c06Methods[op.Method%len(c06Methods)], names, step)
 					keys := append([]string{"who"}, op.Keys...)
-					h.start(nextID, 0, keys, call)
+					kind := int64(0)
+					if op.Silent {
+						kind = 1
+						x.Class("request-with-empty-result")
+					}
+					h.start(nextID, kind, keys, call)
 					keySets[fmt.Sprint(op.Keys)] = true
 					x.Class("method:" + call.Method)
 				case "release":
